@@ -334,7 +334,16 @@ type RecvOnlyCheck struct {
 	Where     string
 }
 
+// DistinctCheck: the named package-level string constants have pairwise different values.
+type DistinctCheck struct {
+	Pkg   string
+	Names []string
+	Props []string
+	Where string
+}
+
 type SpecDB struct {
+	Distinct   []*DistinctCheck
 	RecvOnly   []*RecvOnlyCheck
 	MethodSets []*MethodSetCheck
 	Contracts map[string]*Contract
@@ -351,7 +360,7 @@ func NewSpecDB() *SpecDB {
 }
 
 var clauseKW = map[string]bool{"fresh": true, "requires": true, "ensures": true, "modifies": true, "crash_inv": true, "loop": true, "observe": true, "param": true, "trusted": true, "nopanic": true, "pure": true, "noinline": true, "inline": true, "property": true, "assert": true}
-var topKW = map[string]bool{"recvonly": true, "methodset": true, "func": true, "package": true, "record": true, "spec": true, "model": true, "pred": true, "axiom": true}
+var topKW = map[string]bool{"distinct": true, "recvonly": true, "methodset": true, "func": true, "package": true, "record": true, "spec": true, "model": true, "pred": true, "axiom": true}
 
 // LoadFile parses one contract file. pkgPath is the import path the file's functions live in
 // (overridden by `//@ package` lines).
@@ -472,6 +481,23 @@ func (db *SpecDB) LoadFile(file, pkgPath string) error {
 				return fail(err)
 			}
 			db.Preds[name] = &Pred{Name: name, Params: args, Body: body}
+			cur = nil
+		case "distinct":
+			dc := &DistinctCheck{Pkg: pkgPath, Where: where}
+			mode := "names"
+			for _, w := range fs[1:] {
+				w = strings.TrimSuffix(w, ",")
+				if w == "property" {
+					mode = "property"
+					continue
+				}
+				if mode == "names" {
+					dc.Names = append(dc.Names, w)
+				} else {
+					dc.Props = append(dc.Props, w)
+				}
+			}
+			db.Distinct = append(db.Distinct, dc)
 			cur = nil
 		case "recvonly":
 			// recvonly chanField in f1, f2 property Cxx
